@@ -57,20 +57,22 @@ def _r(rng, lo, hi, nd=4):
 
 
 def gen_program(rng, family=None, max_junctions=8, sorted_labels=True, thermal=None,
-                kinds=None, big_labels=False):
+                kinds=None, big_labels=False, many_pi=False):
     """Return (program, meta). meta lists what can be edited / faulted later."""
     if family is None:
         family = rng.choice(["gas", "gas", "water", "water", "heat"])
     if family == "heat":
         return _gen_heat(rng, max_junctions, sorted_labels, kinds, big_labels)
-    return _gen_tree(rng, family, max_junctions, sorted_labels, thermal, kinds, big_labels)
+    return _gen_tree(rng, family, max_junctions, sorted_labels, thermal, kinds, big_labels, many_pi)
 
 
 # ------------------------------------------------------------------------------------------
-def _gen_tree(rng, family, max_junctions, sorted_labels, thermal, kinds, big_labels):
+def _gen_tree(rng, family, max_junctions, sorted_labels, thermal, kinds, big_labels, many_pi=False):
     gas = family == "gas"
     fluid = rng.choice(GAS_FLUIDS if gas else LIQ_FLUIDS)
     n = rng.randint(2, max(2, max_junctions))
+    if many_pi:
+        n = max(n, min(5, max_junctions))
     jl = _labels(rng, n, sorted_labels, big=big_labels)
     cnt = _Counter(rng, sorted_labels)
     all_kinds = ["pipe_std", "valve", "pump", "compressor", "flow_control", "press_control",
@@ -81,6 +83,8 @@ def _gen_tree(rng, family, max_junctions, sorted_labels, thermal, kinds, big_lab
         kinds = set(rng.sample(all_kinds, k))
     else:
         kinds = set(kinds)
+    if many_pi:
+        kinds.add("valve_pi")
     if thermal is None:
         thermal = rng.random() < 0.5
     ops = []
@@ -199,7 +203,7 @@ def _gen_tree(rng, family, max_junctions, sorted_labels, thermal, kinds, big_lab
     # junction-pipe valve
     if "valve_pi" in kinds and pipes:
         # one to four valves at pipe ends (distinct junction-pipe pairs, not at both ends of the same pipe)
-        chosen = rng.sample(pipes, min(len(pipes), rng.choice([1, 1, 2, 3, 4])))
+        chosen = rng.sample(pipes, min(len(pipes), rng.choice([3, 4] if many_pi else [1, 1, 2, 3, 4])))
         for (pidx, a, b) in chosen:
             if a == b:
                 continue
